@@ -76,6 +76,21 @@ def window_mask(F, S):
                     out.append(ok("R-CURSOR", inst, fn.loc(nd["id"]), fn.qn, req, fmt_term(fn.term(nd["id"]))))
                 else:
                     out.append(bad("R-CURSOR", inst, fn.loc(nd["id"]), fn.qn, req, "stored as %s" % fmt_term(fn.term(nd["id"]))))
+        # a window index declared with its first value (`unsigned int start = (...) & 0xFFF;`) is a store of that value
+        for nd in fn.nodes:
+            if nd["k"] != "DeclStmt":
+                continue
+            for d in nd.get("decls", []):
+                v = ("var", d.get("n"), d.get("d"))
+                if v in idx_terms and "init" in d:
+                    n += 1
+                    r = fn.term(d["init"])
+                    inst = "%s#%s-store:%s" % (fn.qn, v[1], fmt_term(("op", "=", v, r)))
+                    req = "the index stays below the window extent: stored as (…) & %#x (or unsigned %% %d)" % (ext - 1, ext)
+                    if (r[0] == "op" and r[1] == "&" and ("const", ext - 1) in (r[2], r[3])) or r == ("const", 0):
+                        out.append(ok("R-CURSOR", inst, fn.loc(nd["id"]), fn.qn, req, fmt_term(r)))
+                    else:
+                        out.append(bad("R-CURSOR", inst, fn.loc(nd["id"]), fn.qn, req, "initialised as %s" % fmt_term(r)))
         # the for-loop increment of a match source index is a store in comma form: covered above through is_store on '='
     # constructor starts the write index at 0
     c = [f for f in F.fns(HL + "::HuffLZ") if not f.d.get("copy_ctor")]
@@ -122,19 +137,29 @@ def fill_threshold(F, S):
     fn = F.fn(HL + "::FillDecompressBuffer", nparams=0)
     # the threshold is whatever constant the fill loop compares the masked fill level with
     from .c05 import alias_defs, resolve
+    from ..through import continue_conditions
     mf = None
+    fill_conds = []
     for nd in fn.nodes:
-        if nd["k"] == "WhileStmt":
-            t = resolve(fn.term(nd["cond"]), alias_defs(fn))
-            if t[0] == "op" and t[1] == "<" and t[3][0] == "const":
-                mf = t[3][1]
+        if nd["k"] in ("WhileStmt", "DoStmt", "ForStmt"):
+            for t in continue_conditions(fn, nd):
+                t = resolve(t, alias_defs(fn))
+                if t[0] == "op" and t[1] == "<" and t[3][0] == "const" and "m_BuffWriteIndex" in repr(t[2]) and "m_BuffReadIndex" in repr(t[2]):
+                    mf = t[3][1]
+                    fill_conds.append(t)
     dc = F.fn(HL + "::DecompressCode", nparams=0)
+    # the match length is the code minus a constant (`code -= 253`, or `code - 253` handed to a copy helper)
     base = None
+    codes = {dc.term(dc.kids(nd["id"])[0]) for nd in dc.nodes if nd["k"] == "BinaryOperator" and nd.get("op") == "="
+             and dc.term(dc.kids(nd["id"])[1])[0] == "call" and dc.term(dc.kids(nd["id"])[1])[1].endswith("GetNextCode")}
+    codes |= {("var", d["n"], d["d"]) for nd in dc.nodes if nd["k"] == "DeclStmt" for d in nd.get("decls", [])
+              if "init" in d and dc.term(d["init"])[0] == "call" and dc.term(d["init"])[1].endswith("GetNextCode")}
     for nd in dc.nodes:
-        if nd["k"] == "CompoundAssignOperator" and nd.get("op") == "-=":
-            r = dc.term(dc.kids(nd["id"])[1])
-            if r[0] == "const":
-                base = r[1]
+        if (nd["k"] == "CompoundAssignOperator" and nd.get("op") == "-=") or (nd["k"] == "BinaryOperator" and nd.get("op") == "-"):
+            ks = dc.kids(nd["id"])
+            l, r = dc.term(ks[0]), dc.term(ks[1])
+            if r[0] == "const" and l in codes:
+                base = r[1] if base in (None, r[1]) else -1
     ctor = [f for f in F.fns(HL + "::HuffLZ") if not f.d.get("copy_ctor") and not f.d.get("implicit")][0]
     syms = None
     for ini in ctor.d.get("inits", []):
@@ -150,11 +175,7 @@ def fill_threshold(F, S):
         out.append(bad("R-LAYOUT", inst, dc.loc(dc.body), dc.qn, "%d symbols; match length = code - %d" % (sp["symbols"], sp["match_base"]), "found %s symbols, base %s" % (syms, base)))
     inst = HL + "::FillDecompressBuffer#room-for-longest-match"
     req = "fill threshold + longest match (%d) <= window - 1, so a decoded match never overwrites unread bytes" % sp["max_match"]
-    cond_ok = False
-    for nd in fn.nodes:
-        if nd["k"] == "WhileStmt":
-            t = fn.term(nd["cond"])
-            cond_ok = t[0] == "op" and t[1] == "<" and "m_BuffWriteIndex" in repr(t[2]) and "m_BuffReadIndex" in repr(t[2])
+    cond_ok = len(fill_conds) == 1
     if mf is not None and syms is not None and base is not None and cond_ok and mf + ((syms - 1) - base) <= sp["window"] - 1:
         out.append(ok("R-ACCT", inst, fn.loc(fn.body), fn.qn, req, "%d + %d <= %d" % (mf, (syms - 1) - base, sp["window"] - 1)))
     else:
